@@ -7,7 +7,9 @@ import (
 	"math"
 	"math/big"
 	"math/rand"
+	"reflect"
 	"regexp"
+	"sort"
 	"strconv"
 	"strings"
 	"sync"
@@ -30,6 +32,10 @@ type c05Val struct {
 	S   []string `json:"s"`
 	B   bool     `json:"b"`
 	Len int      `json:"len"`
+	// k = "dec": (-1)^neg * (the integer with decimal digits ds) * 10^e10 (JqValue.ParseDec)
+	Neg bool     `json:"neg"`
+	Ds  []string `json:"ds"`
+	E10 int64    `json:"e10"`
 }
 
 type c05Res struct {
@@ -56,6 +62,36 @@ type c05Vec struct {
 	Name   string   `json:"name"`
 	Prefix bool     `json:"prefix"`
 	Stored *c05Val  `json:"stored"`
+	// nest: a composed expression
+	Shape string   `json:"shape"`
+	Tree  *c05Tree `json:"tree"`
+	Marks []int    `json:"marks"`
+	// site / usite: one expression evaluated once per element of a sequence
+	Side  int      `json:"side"`
+	Cells []c05Res `json:"cells"`
+	Runs  []c05Run `json:"runs"`
+}
+
+// c05Run: the operands (indexes into the universe) one site sees in one run, in
+// order; the run prints cells[seq[0]] .. cells[seq[nout-1]] and then, when Err,
+// ends with a runtime error.
+type c05Run struct {
+	Variant string `json:"variant"`
+	Seq     []int  `json:"seq"`
+	NOut    int    `json:"nout"`
+	Err     bool   `json:"err"`
+}
+
+// c05Tree is an expression tree of JqValue.EvalTree (leaf | un | bin).
+type c05Tree struct {
+	T  string   `json:"t"`
+	Op string   `json:"op,omitempty"`
+	V  *c05Val  `json:"v,omitempty"`
+	ID int      `json:"id,omitempty"`
+	E  *c05Tree `json:"e,omitempty"`
+	L  *c05Tree `json:"l,omitempty"`
+	R  *c05Tree `json:"r,omitempty"`
+	G  *c05GV   `json:"-"` // the concrete leaf value
 }
 
 // c05GV is a concrete jqawk value: kind num|str|bool|null|unset|arr|obj|regex|fn.
@@ -71,6 +107,28 @@ type c05GV struct {
 func c05Rat(v *c05Val) *big.Rat {
 	if v.K == "sum" {
 		return new(big.Rat).Add(c05Rat(v.X), c05Rat(v.Y))
+	}
+	if v.K == "dec" {
+		m := new(big.Int)
+		if len(v.Ds) > 0 {
+			if _, ok := m.SetString(strings.Join(v.Ds, ""), 10); !ok {
+				infra("C05: decimal digits %v", v.Ds)
+			}
+		}
+		if c05abs(v.E10) > 5000 {
+			infra("C05: decimal exponent %d", v.E10)
+		}
+		r := new(big.Rat).SetInt(m)
+		p := new(big.Rat).SetInt(new(big.Int).Exp(big.NewInt(10), big.NewInt(c05abs(v.E10)), nil))
+		if v.E10 >= 0 {
+			r.Mul(r, p)
+		} else {
+			r.Quo(r, p)
+		}
+		if v.Neg {
+			r.Neg(r)
+		}
+		return r
 	}
 	r := new(big.Rat).SetFrac(big.NewInt(v.N), big.NewInt(v.D))
 	p := new(big.Int).Lsh(big.NewInt(1), uint(c05abs(v.E)))
@@ -94,6 +152,9 @@ func c05Nearest(v *c05Val) float64 {
 			return math.Copysign(0, -1)
 		}
 		return 0
+	}
+	if v.K == "dec" && len(v.Ds) == 0 {
+		return c05signedZero(v.Neg)
 	}
 	f, _ := c05Rat(v).Float64()
 	return f
@@ -151,6 +212,9 @@ func c05ParseNum(s []byte) (float64, bool) {
 	if i := strings.IndexByte(t, '.'); i >= 0 {
 		exp -= len(t) - i - 1
 		t = t[:i] + t[i+1:]
+	}
+	if exp > 5000 || exp < -5000 { // far outside the doubles: outside the model (NaN = "not compared")
+		return math.NaN(), true
 	}
 	m, ok := new(big.Int).SetString(t, 10)
 	if !ok {
@@ -239,6 +303,9 @@ func c05signedZero(neg bool) float64 {
 
 // c05Arith: one IEEE operation = the double nearest to the exact result.
 func c05Arith(op string, x, y float64) c05Out {
+	if math.IsNaN(x) || math.IsNaN(y) || math.IsInf(x, 0) || math.IsInf(y, 0) { // a numeric string outside the doubles
+		return c05Out{Open: true}
+	}
 	var exact *big.Rat
 	var native float64
 	switch op {
@@ -324,6 +391,9 @@ func c05Bin(op string, l, r c05GV) c05Out {
 			c = bytes.Compare(l.S, r.S)
 		default:
 			x, y := c05NumOf(l), c05NumOf(r)
+			if math.IsNaN(x) || math.IsNaN(y) || math.IsInf(x, 0) || math.IsInf(y, 0) {
+				return c05Out{Open: true}
+			}
 			if x < y {
 				c = -1
 			} else if x > y {
@@ -375,10 +445,15 @@ func c05Un(op string, v c05GV) c05Out {
 	switch op {
 	case "!":
 		return c05B(!c05Truthy(v))
-	case "+":
-		return c05N(c05NumOf(v))
-	case "-":
-		return c05N(-c05NumOf(v))
+	case "+", "-":
+		x := c05NumOf(v)
+		if math.IsNaN(x) || math.IsInf(x, 0) {
+			return c05Out{Open: true}
+		}
+		if op == "-" {
+			x = -x
+		}
+		return c05N(x)
 	}
 	infra("C05: unknown unary operator %q", op)
 	return c05Out{}
@@ -644,6 +719,14 @@ func c05BinProg(op string, l, r c05GV, mode string) (prog, doc, marks string, ok
 			return "", "", "", false
 		}
 		return fn + "BEGIN { " + lp + rp + expr + " }", "", "", true
+	case "lv", "vl": // one operand a literal, the other one a variable
+		lm, rm := "lit", "var"
+		if mode == "vl" {
+			lm, rm = "var", "lit"
+		}
+		la, lp, _ := c05Operand(l, "a", lm)
+		ra, rp, _ := c05Operand(r, "b", rm)
+		return fn + "BEGIN { " + lp + rp + "print " + la + " " + op + " " + ra + " }", "", "", true
 	case "same":
 		la, lp, _ := c05Operand(l, "a", "var")
 		return fn + "BEGIN { " + lp + "print " + la + " " + op + " " + la + " }", "", "", true
@@ -847,6 +930,8 @@ func checkC05(c *Ctx) {
 	c.Assume("numeric strings: the decimal grammar [sign] digits [. digits] [e [sign] digits]; Go's hex, inf/nan and underscore spellings and out-of-range magnitudes are outside the model")
 	c.Assume("negative number literals are written (0 - x) and -0 as (- 0) so that the check does not depend on how a leading minus is lexed (C13)")
 	c.Assume("the number print format (strconv 'f', -1) is taken from DESIGN.md 3.1; values of a function/regex/unset passed through `return` are assumed to keep their kind (marker mode)")
+	c.Assume("composed expressions: where the result of an inner operator is outside the model's exact arithmetic (a quotient that is not a dyadic rational, |mantissa| >= 2^6, a number text longer than its exact expansion, a computed string with more than 8 digits or an exponent) or is itself not fixed, the expression is not compared in the model's families; the seeded trees are computed by the Go port of the tables (one IEEE rounding per operator)")
+	c.Assume("repeated sites: for-in over an object visits the keys in bytewise sorted order (C10); a function is not passed as an argument and neither a function nor an unset value is stored in an array or object (not fixed by the statement)")
 	pool := c.Pool()
 
 	var cmu sync.Mutex
@@ -941,15 +1026,25 @@ func checkC05(c *Ctx) {
 
 	// ---- (1) every cell of the model
 	portChecked := 0
+	nestNo := 0
+	var siteVecs []c05Vec
+	uVals := map[int]*c05GV{}        // the operand universe by index (from the cells), for the site vectors
 	siteCells := map[string]c05Out{} // "op li ri" -> outcome of the ~ / !~ cell
 	siteVals := map[int]c05GV{}
 	siteLeftMax := 0
 	onVec := func(raw []byte) {
 		var v c05Vec
 		VecDecode(raw, &v)
-		l := c05Concrete(v.L)
-		exp := c05FromModel(v.Res)
 		count("cells " + v.Fam)
+		if v.Fam == "site" || v.Fam == "usite" {
+			siteVecs = append(siteVecs, v)
+			return
+		}
+		exp := c05FromModel(v.Res)
+		var l c05GV
+		if v.L != nil {
+			l = c05Concrete(v.L)
+		}
 		switch v.Fam {
 		case "bin", "match":
 			r := c05Concrete(v.R)
@@ -963,7 +1058,10 @@ func checkC05(c *Ctx) {
 				count("cells not fixed by the statement")
 				return
 			}
-			modes := []string{"lit", "var", "doc", "mark"}
+			modes := []string{"lit", "var", "doc", "mark", "lv", "vl"}
+			if v.Fam == "bin" {
+				uVals[v.Li], uVals[v.Ri] = &l, &r
+			}
 			if v.Li == v.Ri {
 				modes = append(modes, "same")
 			}
@@ -1034,15 +1132,91 @@ func checkC05(c *Ctx) {
 					submitOnce(cs)
 				}
 			}
+		case "nest":
+			c05Concretize(v.Tree)
+			port, pm := c05EvalTree(v.Tree)
+			if exp.Open {
+				count("composed expressions outside the range of the model's arithmetic or not fixed by the statement")
+				return
+			}
+			if !c05SameOut(port, exp) || !reflect.DeepEqual(pm, v.Marks) {
+				infra("C05: the Go port of EvalTree disagrees with the specification at %s: port %+v %v, spec %+v %v", c05TreeDesc(v.Tree), port, pm, exp, v.Marks)
+			}
+			portChecked++
+			nestNo++
+			modes := []string{"lit", "var", "mark"}
+			if v.Shape == "bl" || v.Shape == "br" { // (the big families: the renderings take turns)
+				modes = []string{[]string{"lit", "var", "doc", "mark"}[nestNo%4]}
+			}
+			for _, mode := range modes {
+				submitOnce(c05TreeCase(v.Tree, mode, exp, v.Marks))
+			}
 		default:
 			infra("C05: unknown vector family %q", v.Fam)
 		}
 	}
+	nestN, stride := 5, []int{41, 43, 47, 53, 59, 61, 67}[int(uint64(c.Seed)%7)]
+	if c.Thorough() {
+		nestN = 9
+	}
 	res := c.TLC(TLCOpt{Module: "MC_Ops",
-		Cfg:     cfgText("INIT Init", "NEXT Next", "INVARIANT Laws", "INVARIANT Vec", "CHECK_DEADLOCK FALSE"),
+		Cfg: cfgText("INIT Init", "NEXT Next", "CONSTANTS", `Fams = {"bin", "match", "un", "inc", "is", "nest", "site", "usite"}`,
+			fmt.Sprintf("NestN = %d", nestN), fmt.Sprintf("SiteShift = %d", uint64(c.Seed)%1000), fmt.Sprintf("SiteStride = %d", stride),
+			"INVARIANT Laws", "INVARIANT Vec", "CHECK_DEADLOCK FALSE"),
 		Workers: 8, Heap: "6g", OnVec: onVec})
 	if res.Vectors == 0 {
 		infra("C05: TLC emitted no vectors")
+	}
+
+	// ---- (1a) repeated sites of every operator: the changing operand reaches the
+	// site as a for-in variable (elements, values, keys, characters, indexes), a
+	// parameter, a reassigned variable or an indexed member; every evaluation must
+	// give its own cell's result
+	for _, v := range siteVecs {
+		if len(v.Cells) != len(uVals) {
+			infra("C05: a site vector has %d cells, the universe %d values", len(v.Cells), len(uVals))
+		}
+		var fixed c05GV
+		if v.L != nil {
+			fixed = c05Concrete(v.L)
+		}
+		for _, run := range v.Runs {
+			if len(run.Seq) == 0 {
+				continue
+			}
+			elems := make([]c05GV, len(run.Seq))
+			outs := make([]c05Out, len(run.Seq))
+			for t, i := range run.Seq {
+				if uVals[i] == nil {
+					infra("C05: site operand %d is not in the universe", i)
+				}
+				elems[t] = *uVals[i]
+				outs[t] = c05FromModel(v.Cells[i-1])
+				var port c05Out
+				switch v.Side {
+				case 0:
+					port = c05Un(v.Op, elems[t])
+				case 1:
+					port = c05Bin(v.Op, elems[t], fixed)
+				case 2:
+					port = c05Bin(v.Op, fixed, elems[t])
+				default:
+					port = c05Bin(v.Op, elems[t], elems[t])
+				}
+				if !c05SameOut(port, outs[t]) || outs[t].Open || outs[t].Err != (run.Err && t == len(run.Seq)-1) {
+					infra("C05: site %s side %d, operand %s: port %+v, spec %+v (run %+v)", v.Op, v.Side, c05Lit(elems[t], "x"), port, outs[t], run)
+				}
+			}
+			if run.NOut != len(run.Seq) && !(run.Err && run.NOut == len(run.Seq)-1) {
+				infra("C05: site run %+v", run)
+			}
+			cs, ok := c05SiteSeqCase(v.Op, v.Side, run.Variant, fixed, elems, outs)
+			if !ok {
+				infra("C05: the %s variant cannot carry the operands the model gave it", run.Variant)
+			}
+			count("repeated-site programs (" + run.Variant + ")")
+			submitOnce(cs)
+		}
 	}
 
 	// ---- (1b) one `~` / `!~` SITE evaluated several times in one run with
@@ -1099,8 +1273,89 @@ func checkC05(c *Ctx) {
 	}
 	rng := rand.New(rand.NewSource(c.Seed))
 	for i := 0; i < n; i++ {
-		fam := rng.Intn(21)
+		fam := rng.Intn(26)
 		switch {
+		case fam >= 24: // one site of a random operator, a random sequence of operands, every way of reaching it
+			side := rng.Intn(4)
+			op := c05AllBin[rng.Intn(len(c05AllBin)-2)]
+			if side == 0 {
+				op = []string{"!", "-", "+"}[rng.Intn(3)]
+			}
+			variant := []string{"elem", "docelem", "val", "key", "char", "param", "var", "member"}[rng.Intn(8)]
+			fixed := c05RandVal(rng, false)
+			var elems []c05GV
+			var outs []c05Out
+			okSeq := !(fixed.Kind == "str" && !c05SafeStr(fixed.S)) && !(fixed.Kind == "regex" && bytes.ContainsAny(fixed.S, "/ "))
+			for k := 2 + rng.Intn(7); len(elems) < k; {
+				var e c05GV
+				switch variant {
+				case "key":
+					e = c05GV{Kind: "str", S: []byte([]string{c05RandNumericStr(rng), c05RandNonNumericStr(rng)}[rng.Intn(2)])}
+				case "char":
+					e = c05GV{Kind: "str", S: []byte(string("0123456789 -.ax+e"[rng.Intn(17)]))}
+				default:
+					e = c05RandVal(rng, false)
+				}
+				if e.Kind == "unset" || e.Kind == "fn" || (variant == "docelem" && !c05JSONKind(e)) || (e.Kind == "regex" && bytes.ContainsAny(e.S, "/ ")) ||
+					(e.Kind == "str" && !c05SafeStr(e.S)) {
+					continue
+				}
+				elems = append(elems, e)
+			}
+			if variant == "key" { // keys are distinct and visited in sorted order
+				sort.Slice(elems, func(a, b int) bool { return bytes.Compare(elems[a].S, elems[b].S) < 0 })
+				uniq := elems[:1]
+				for _, e := range elems[1:] {
+					if !bytes.Equal(e.S, uniq[len(uniq)-1].S) {
+						uniq = append(uniq, e)
+					}
+				}
+				elems = uniq
+			}
+			for q, e := range elems {
+				var o c05Out
+				switch side {
+				case 0:
+					o = c05Un(op, e)
+				case 1:
+					o = c05Bin(op, e, fixed)
+				case 2:
+					o = c05Bin(op, fixed, e)
+				default:
+					o = c05Bin(op, e, e)
+				}
+				okSeq = okSeq && !o.Open
+				outs = append(outs, o)
+				if o.Err {
+					elems = elems[:q+1]
+					break
+				}
+			}
+			if !okSeq || len(elems) < 2 {
+				continue
+			}
+			cs, ok := c05SiteSeqCase(op, side, variant, fixed, elems, outs)
+			if !ok {
+				continue
+			}
+			cs.Desc, cs.Seed = "seeded: "+cs.Desc, true
+			count("seeded cases")
+			submitOnce(cs)
+		case fam >= 21: // a random expression of depth <= 3
+			next := 0
+			t := c05RandTree(rng, 1+rng.Intn(3), &next)
+			if t.T == "leaf" {
+				continue
+			}
+			exp, marks := c05EvalTree(t)
+			if exp.Open {
+				count("seeded cases not fixed by the statement")
+				continue
+			}
+			cs := c05TreeCase(t, []string{"lit", "var", "doc", "mark"}[rng.Intn(4)], exp, marks)
+			cs.Desc, cs.Seed = "seeded: "+cs.Desc, true
+			count("seeded cases")
+			submitOnce(cs)
 		case fam == 20: // one site, several (subject, pattern) pairs
 			op := []string{"~", "!~"}[rng.Intn(2)]
 			k := 2 + rng.Intn(4)
@@ -1241,7 +1496,12 @@ func checkC05(c *Ctx) {
 		"both booleans, null, unset, [] [1] {} {a:1}, two regexes, a function), ~ and !~ additionally against 13 patterns as strings and regex literals, "+
 		"every unary operator, ++/-- prefix and postfix, `is` with every type name and 27 identifiers that are not type names (internal tag names, other languages' names, other letter case) on every operand kind and on built-in functions; each cell is replayed with the operands as literals, variables, "+
 		"document fields, one shared variable (diagonal) and behind marker functions; a null operand additionally as a missing numeric member (index past the end of a document / variable array, absent numeric key of an object); "+
-		"per operator and left operand, one ~ / !~ site evaluated 6-9 times in one run with different patterns (parameter, array element, reassigned variable; strings and regex values; an invalid pattern last); a case is non-trivial unless both operands are small positive integers; distinct by program + document")
+		"per operator and left operand, one ~ / !~ site evaluated 6-9 times in one run with different patterns (parameter, array element, reassigned variable; strings and regex values; an invalid pattern last); "+
+		"cells additionally with one operand a literal and the other a variable; COMPOSED expressions (JqValue.EvalTree): every unary operator over every binary operator over every ordered pair of the universe, every unary over every unary, "+
+		fmt.Sprintf("every binary operator over every binary operator (both shapes) over every triple of a %d-value universe, leaves as literals / variables / document fields / marker functions (evaluation order and short circuit at depth); ", nestN)+
+		"REPEATED SITES of every operator: per binary operator x fixed operand x side (and the same variable on both sides) and per unary operator, one source-level expression evaluated once per operand of the universe in one run "+
+		"(order: a seed-chosen rotation, values first, one runtime-error cell last), the changing operand reaching it as a for-in variable over a literal array, an array of the document, object values (second variable), object keys, "+
+		"the characters of a string, the index variable, a parameter, a reassigned variable, an indexed member; a case is non-trivial unless both operands are small positive integers; distinct by program + document")
 	c.Set("checker_cmd", "tlc MC_Ops (INVARIANT Laws, Vec); replay through lang.EvalProgram in worker subprocesses")
 	c.Set("cells", counts)
 	c.Set("port_cells_checked_against_spec", portChecked)
@@ -1345,4 +1605,294 @@ func c05SiteCase(op, variant string, ls, rs []c05GV, outs []c05Out) c05Case {
 	}
 	cs.Want = out
 	return cs
+}
+
+// ---------------------------------------------------------------------------
+// Composed expressions (JqValue.EvalTree): the Go port, the renderings.
+
+func c05LeafT(g c05GV, id int) *c05Tree { return &c05Tree{T: "leaf", ID: id, G: &g} }
+
+// c05Concretize fills in the concrete value of every leaf of a tree of the model.
+func c05Concretize(t *c05Tree) {
+	switch t.T {
+	case "leaf":
+		g := c05Concrete(t.V)
+		t.G = &g
+	case "un":
+		c05Concretize(t.E)
+	case "bin":
+		c05Concretize(t.L)
+		c05Concretize(t.R)
+	default:
+		infra("C05: tree node %q", t.T)
+	}
+}
+
+// c05EvalTree: port of JqValue.EvalTree: an operator node is applied to the
+// results of its operands, left to right; a runtime error ends the evaluation;
+// && and || skip the right operand when the left one decides.  marks are the
+// ids of the leaves evaluated, in order.
+func c05EvalTree(t *c05Tree) (out c05Out, marks []int) {
+	switch t.T {
+	case "leaf":
+		return c05Out{V: *t.G}, []int{t.ID}
+	case "un":
+		a, m := c05EvalTree(t.E)
+		if a.Err || a.Open {
+			return a, m
+		}
+		return c05Un(t.Op, a.V), m
+	}
+	a, m := c05EvalTree(t.L)
+	if a.Err || a.Open {
+		return a, m
+	}
+	if !c05EvalsRight(t.Op, a.V) {
+		return c05B(t.Op == "||"), m
+	}
+	b, m2 := c05EvalTree(t.R)
+	m = append(append([]int{}, m...), m2...)
+	if b.Err || b.Open {
+		return b, m
+	}
+	return c05Bin(t.Op, a.V, b.V), m
+}
+
+func c05TreeLeaves(t *c05Tree, out []*c05Tree) []*c05Tree {
+	switch t.T {
+	case "leaf":
+		return append(out, t)
+	case "un":
+		return c05TreeLeaves(t.E, out)
+	}
+	return c05TreeLeaves(t.R, c05TreeLeaves(t.L, out))
+}
+
+// c05TreeText renders a tree with every operator node that is an operand in
+// parentheses; ref gives the text of a leaf.
+func c05TreeText(t *c05Tree, ref func(*c05Tree) string) string {
+	sub := func(x *c05Tree) string {
+		if x.T == "leaf" {
+			return ref(x)
+		}
+		return "(" + c05TreeText(x, ref) + ")"
+	}
+	switch t.T {
+	case "leaf":
+		return ref(t)
+	case "un":
+		return t.Op + " " + sub(t.E)
+	}
+	return sub(t.L) + " " + t.Op + " " + sub(t.R)
+}
+
+func c05TreeDesc(t *c05Tree) string {
+	return c05TreeText(t, func(l *c05Tree) string { return c05Lit(*l.G, fmt.Sprint("x", l.ID)) })
+}
+
+// c05TreeProg: the program of one composed expression.  Modes: lit (leaves as
+// literals), var (variables assigned beforehand), doc (fields of the input
+// document where the value is JSON, variables otherwise), mark (every leaf
+// behind a function that prints its id when it is evaluated).
+func c05TreeProg(t *c05Tree, mode string) (prog, doc string) {
+	leaves := c05TreeLeaves(t, nil)
+	vals := make([]c05GV, len(leaves))
+	for i, l := range leaves {
+		vals[i] = *l.G
+	}
+	fn := c05UsesFn(vals...)
+	pre, fields, decls := "", []string{}, ""
+	refs := map[int]string{}
+	for _, l := range leaves {
+		side := fmt.Sprint("x", l.ID)
+		m := mode
+		if mode == "mark" {
+			m = "var"
+		}
+		ref, p, f := c05Operand(*l.G, side, m)
+		pre += p
+		if f != "" {
+			fields = append(fields, f)
+		}
+		if mode == "mark" {
+			decls += fmt.Sprintf("function m%d() { print \"%d\"; return %s } ", l.ID, l.ID, ref)
+			ref = fmt.Sprintf("m%d()", l.ID)
+		}
+		refs[l.ID] = ref
+	}
+	expr := c05TreeText(t, func(l *c05Tree) string { return refs[l.ID] })
+	if len(fields) > 0 {
+		return fn + decls + "{ " + pre + "print " + expr + " }", "{" + strings.Join(fields, ", ") + "}"
+	}
+	return fn + decls + "BEGIN { " + pre + "print " + expr + " }", ""
+}
+
+func c05MarksText(marks []int) string {
+	var sb strings.Builder
+	for _, m := range marks {
+		sb.WriteString(strconv.Itoa(m))
+		sb.WriteByte('\n')
+	}
+	return sb.String()
+}
+
+// c05TreeCase: one composed expression in one mode, with the outcome exp and
+// (mark mode) the leaves that must have been evaluated.
+func c05TreeCase(t *c05Tree, mode string, exp c05Out, marks []int) c05Case {
+	prog, doc := c05TreeProg(t, mode)
+	m := ""
+	if mode == "mark" {
+		m = c05MarksText(marks)
+	}
+	cs := c05MkCase(fmt.Sprintf("%s, leaves as %s", c05TreeDesc(t), mode), prog, doc, m, exp)
+	cs.NT = true
+	return cs
+}
+
+// c05RandTree: a random expression of the given depth over seeded leaves.
+func c05RandTree(rng *rand.Rand, depth int, next *int) *c05Tree {
+	if depth <= 0 || rng.Intn(5) == 0 {
+		for {
+			v := c05RandVal(rng, false)
+			if v.Kind == "str" && !c05SafeStr(v.S) {
+				continue
+			}
+			if v.Kind == "regex" && bytes.ContainsAny(v.S, "/ ") {
+				continue
+			}
+			*next++
+			return c05LeafT(v, *next)
+		}
+	}
+	if rng.Intn(4) == 0 {
+		return &c05Tree{T: "un", Op: []string{"!", "-", "+"}[rng.Intn(3)], E: c05RandTree(rng, depth-1, next)}
+	}
+	op := c05AllBin[rng.Intn(len(c05AllBin)-2)] // ~ and !~ : see the repeated-site programs
+	l := c05RandTree(rng, depth-1, next)
+	return &c05Tree{T: "bin", Op: op, L: l, R: c05RandTree(rng, depth-1, next)}
+}
+
+// ---------------------------------------------------------------------------
+// Repeated sites: one source-level operator expression evaluated once per
+// element of a sequence of operands, in one run.
+
+// c05SiteProg renders the run of one site.  side 1: the changing operand x on
+// the left of op and the fixed one on the right; 2: the other way round; 3: x
+// on both sides; 0: a unary operator applied to x.  ok=false when the variant
+// cannot carry the elements.
+func c05SiteProg(op string, side int, variant string, fixed c05GV, elems []c05GV) (prog, doc string, ok bool) {
+	uses := append([]c05GV{}, elems...)
+	if side == 1 || side == 2 {
+		uses = append(uses, fixed)
+	}
+	fn := c05UsesFn(uses...)
+	fref, fpre := "", ""
+	if side == 1 || side == 2 {
+		fref, fpre, _ = c05Operand(fixed, "b", "var")
+	}
+	expr := func(x string) string {
+		switch side {
+		case 0:
+			return op + " " + x
+		case 1:
+			return x + " " + op + " " + fref
+		case 2:
+			return fref + " " + op + " " + x
+		}
+		return x + " " + op + " " + x
+	}
+	lits := make([]string, len(elems))
+	for i, e := range elems {
+		lits[i] = c05Lit(e, "x")
+	}
+	n := strconv.Itoa(len(elems))
+	switch variant {
+	case "elem":
+		return fn + "BEGIN { " + fpre + "xs = [" + strings.Join(lits, ", ") + "]; for (x in xs) print " + expr("x") + " }", "", true
+	case "docelem":
+		js := make([]string, len(elems))
+		for i, e := range elems {
+			if !c05JSONKind(e) {
+				return "", "", false
+			}
+			js[i] = c05JSON(e)
+		}
+		return fn + "{ " + fpre + "for (x in $.xs) print " + expr("x") + " }", `{"xs": [` + strings.Join(js, ", ") + `]}`, true
+	case "val":
+		parts := make([]string, len(elems))
+		for i := range elems {
+			parts[i] = fmt.Sprintf("k%03d: %s", i, lits[i])
+		}
+		return fn + "BEGIN { " + fpre + "o = {" + strings.Join(parts, ", ") + "}; for (k, x in o) print " + expr("x") + " }", "", true
+	case "key":
+		parts := make([]string, len(elems))
+		for i, e := range elems {
+			if e.Kind != "str" {
+				return "", "", false
+			}
+			parts[i] = c05JSON(e) + ": " + strconv.Itoa(i)
+		}
+		return fn + "{ " + fpre + "for (x in $.o) print " + expr("x") + " }", `{"o": {` + strings.Join(parts, ", ") + `}}`, true
+	case "char":
+		var sb []byte
+		for _, e := range elems {
+			if e.Kind != "str" || !c05SafeStr(e.S) {
+				return "", "", false
+			}
+			sb = append(sb, e.S...)
+		}
+		return fn + "BEGIN { " + fpre + "for (x in \"" + string(sb) + "\") print " + expr("x") + " }", "", true
+	case "idx":
+		tens := make([]string, len(elems))
+		for i := range elems {
+			tens[i] = strconv.Itoa(10 * (i + 1))
+		}
+		return fn + "BEGIN { " + fpre + "xs = [" + strings.Join(tens, ", ") + "]; for (v, x in xs) print " + expr("x") + " }", "", true
+	case "param":
+		prog = fn + "function m(x) { return " + expr("x") + " } BEGIN { " + fpre
+		for i, e := range elems {
+			prog += "print m(" + c05Lit(e, fmt.Sprint("p", i)) + "); "
+		}
+		return prog + "}", "", true
+	case "var":
+		prog = fn + "BEGIN { " + fpre + "for (i = 0; i < " + n + "; i++) { "
+		for i := range elems {
+			prog += "if (i == " + strconv.Itoa(i) + ") { x = " + lits[i] + " } "
+		}
+		return prog + "print " + expr("x") + " } }", "", true
+	case "member":
+		return fn + "BEGIN { " + fpre + "xs = [" + strings.Join(lits, ", ") + "]; for (i = 0; i < " + n + "; i++) print " + expr("xs[i]") + " }", "", true
+	}
+	infra("C05: site variant %q", variant)
+	return
+}
+
+// c05SiteSeqCase: the case of one run; outs are the outcomes of the elements in
+// order (the run stops at the first runtime error).
+func c05SiteSeqCase(op string, side int, variant string, fixed c05GV, elems []c05GV, outs []c05Out) (c05Case, bool) {
+	prog, doc, ok := c05SiteProg(op, side, variant, fixed, elems)
+	if !ok {
+		return c05Case{}, false
+	}
+	what := "x " + op + " x"
+	switch side {
+	case 0:
+		what = op + " x"
+	case 1:
+		what = "x " + op + " " + c05Lit(fixed, "b")
+	case 2:
+		what = c05Lit(fixed, "b") + " " + op + " x"
+	}
+	cs := c05Case{Desc: fmt.Sprintf("one site `%s` evaluated for %d operands in one run (%s)", what, len(elems), variant), Prog: prog, Doc: doc, Key: prog + "\x00" + doc, NT: true}
+	out := ""
+	for _, o := range outs {
+		if o.Err {
+			cs.Err = true
+			cs.WantE = out
+			return cs, true
+		}
+		out += c05Text(o.V) + "\n"
+	}
+	cs.Want = out
+	return cs, true
 }
